@@ -1,6 +1,104 @@
 package main
 
-// runConcretiser tries to reproduce a failed obligation on the real code.
+import (
+	"encoding/json"
+	"fmt"
+	"os"
+	"os/exec"
+	"path/filepath"
+	"regexp"
+	"strings"
+)
+
+// replayTests maps a function key to the replay test (in /verif/replay) that exercises the REAL
+// function on a concrete input space and evaluates its contract clauses.
+var replayTests = map[string]string{
+	"wire:(*injectorGen).funcProviderCall": "TestReplay_funcProviderCall",
+	"wire:injectPass":                      "TestReplay_injectPass",
+	"wire:funcOutput":                      "TestReplay_funcOutput",
+	"wire:buildProviderMap":                "TestReplay_buildProviderMap",
+	"wire:buildProviderMap$1":              "TestReplay_buildProviderMap",
+	"wire:verifyArgsUsed":                  "TestReplay_verifyArgsUsed",
+	"wire:zeroValue":                       "TestReplay_zeroValue",
+	"wire:checkField":                      "TestReplay_checkField",
+	"wire:solve":                           "TestReplay_solve",
+	"wire:(*gen).inject":                   "TestReplay_inject",
+	"wire:processStructProvider":           "TestReplay_frontend",
+	"wire:processFieldsOf":                 "TestReplay_frontend",
+	"wire:bindShouldUsePointer":            "TestReplay_frontend",
+	"wire:(*objectCache).get":              "TestReplay_frontend",
+	"wire:copyAST$1":                       "TestReplay_frontend",
+	"wire:processInterfaceValue":           "TestReplay_frontend",
+	"main:(*diffCmd).Execute":              "TestReplay_diffCmd",
+	"main:(*genCmd).Execute":               "TestReplay_genCmd",
+}
+
+var clauseRe = regexp.MustCompile(`/(ensures#\d+|requires-preserved#\d+|each#\d+|frame#\d+|loop\d+/inv#\d+|panic#\d+|typeassert#\d+|nilderef#\d+|index#\d+|typednil#\d+|contract-mismatch)`)
+
+// runConcretiser tries to reproduce a failed obligation on the real code: the replay test of the
+// obligation's function is injected into the real package with `go test -overlay` and run; a
+// REPLAY-FAIL line for the same clause means the violation is reproduced on a concrete input.
 func runConcretiser(v *Verifier, prop string, ob *Obligation, rp *Replay) {
-	rp.Notes = append(rp.Notes, "no concretiser registered for this obligation; the solver output is attached")
+	test, ok := replayTests[ob.Fn]
+	if !ok {
+		rp.Notes = append(rp.Notes, "no replay harness registered for "+ob.Fn+"; the solver output is attached")
+		return
+	}
+	pkgDir := "internal/wire"
+	if strings.HasPrefix(ob.Fn, "main:") {
+		pkgDir = "cmd/wire"
+	}
+	files, _ := filepath.Glob(filepath.Join(verifDir, "replay", "*_test.go"))
+	repl := map[string]string{}
+	for _, f := range files {
+		data, err := os.ReadFile(f)
+		if err != nil {
+			continue
+		}
+		want := "package wire"
+		if pkgDir == "cmd/wire" {
+			want = "package main"
+		}
+		if !strings.Contains(string(data), want+"\n") {
+			continue
+		}
+		repl[filepath.Join(v.RepoDir, pkgDir, "zz_replay_"+filepath.Base(f))] = f
+	}
+	tmp, err := os.MkdirTemp("", "govc-replay-")
+	if err != nil {
+		return
+	}
+	defer os.RemoveAll(tmp)
+	ov, _ := json.Marshal(map[string]interface{}{"Replace": repl})
+	ovPath := filepath.Join(tmp, "ov.json")
+	os.WriteFile(ovPath, ov, 0644)
+	cmd := exec.Command("go", "test", "-overlay", ovPath, "-vet=off", "-count=1", "-timeout", "120s", "-run", "^"+test+"$", "./"+pkgDir)
+	cmd.Dir = v.RepoDir
+	cmd.Env = append(os.Environ(), "GOFLAGS=-mod=mod", "GOPROXY=off", "GOSUMDB=off", "GOTOOLCHAIN=local", "GOVC_OBLIGATION="+ob.Name)
+	out, _ := cmd.CombinedOutput()
+	text := string(out)
+	rp.ReplayTest = fmt.Sprintf("cd %s && go test -overlay <%s> -vet=off -run '^%s$' ./%s", v.RepoDir, strings.Join(files, ","), test, pkgDir)
+	clause := ""
+	if m := clauseRe.FindStringSubmatch(ob.Name); m != nil {
+		clause = m[1]
+	}
+	var hits []string
+	for _, ln := range strings.Split(text, "\n") {
+		if !strings.HasPrefix(ln, "REPLAY-FAIL") {
+			continue
+		}
+		if clause != "" && strings.Contains(ln, "clause="+clause+" ") {
+			hits = append(hits, ln)
+		}
+	}
+	if len(hits) > 0 {
+		rp.Reproduced = true
+		if len(hits) > 5 {
+			hits = hits[:5]
+		}
+		rp.ReplayLog = strings.Join(hits, "\n")
+		return
+	}
+	rp.ReplayLog = truncate(text, 4000)
+	rp.Notes = append(rp.Notes, "the replay harness found no concrete input violating clause "+clause+" within its input space")
 }
